@@ -28,7 +28,8 @@ PROPERTY = 'C13'
 MANIFEST = {
     'text': 'Lean 4 theorems: for EVERY byte string the chroot mapping yields root + safe components '
             '(map_path_confined), for EVERY SCP record sequence and EVERY server name tree the download walk stays '
-            'below the destination (scp_sink_confined, sftp_get_confined). The models are tied to the code by a '
+            'below the destination, also when the destination does not exist yet or is a regular file and the first record '
+            'names the destination itself (scp_sink_confined, scp_sink_new_destination_confined, sftp_get_confined). The models are tied to the code by a '
             'differential run (posixpath routines, SFTPServer.map_path, real scp()/sftp.get() against hostile '
             'in-process peers) and the property itself is evaluated on the real chrooted server over request '
             'histories. Histories involving symlinks are decided by the oracle only (two known findings).',
@@ -139,6 +140,8 @@ def snapshot(base: str, skip: Optional[str] = None) -> Dict[str, Any]:
         dns[:] = [d for d in dns if not (skip and os.path.join(dp, d) == skip)]
         for n in dns + fns:
             p = os.path.join(dp, n)
+            if skip and p == skip:          # the confined path itself, also when it is (or became) a file
+                continue
             rel = os.path.relpath(p, base)
             try:
                 st = os.lstat(p)
@@ -453,6 +456,34 @@ def correspondence(ctx: Ctx) -> CorrResult:
         expect.append(('scp_sink', {'records': toks}, ';'.join(lst) if lst else '-'))
         hist.hit('sink:' + r)
 
+    # (3b) the same record lists into a destination path that does not exist yet / that is a regular file:
+    # the first C or D record then names the destination itself
+    async def run_sinks_new() -> List[Tuple[int, List[str], str]]:
+        out = []
+        for i, recs in enumerate(sink_cases):
+            mode = i % 2                  # 0: does not exist, 1: is a file
+            parent = os.path.join(scratch, f'sinknew{i}')
+            os.makedirs(parent)
+            dest = os.path.join(parent, 'dest')
+            if mode == 1:
+                with open(dest, 'wb') as f:
+                    f.write(b'old')
+            r = await run_scp_sink(recs, dest)
+            seen = []
+            if os.path.lexists(dest):
+                seen.append('@')
+                if os.path.isdir(dest):
+                    seen += listing(dest)
+            extra = [x for x in listing(parent) if x != 'dest' and not x.startswith('dest' + os.sep)]
+            out.append((mode, sorted(seen) + ['OUTSIDE:' + x for x in extra], r))
+        return out
+    new_out = pair.run(run_sinks_new(), timeout=600)
+    for recs, (mode, seen, r) in zip(sink_cases, new_out):
+        toks = [k + (hx(nm) if k in 'CD' else '') for k, nm in recs]
+        lines.append(f'sinknew {mode} ' + ' '.join(toks))
+        expect.append(('scp_sink_new', {'records': toks, 'mode': mode}, ';'.join(seen) if seen else '-'))
+        hist.hit('sinknew:' + r)
+
     # (4) recursive SFTP get against a hostile server ----------------------------
     get_cases = [gen_tree(rng, 0, True) for _ in range(ctx.n(25, 300))]
 
@@ -481,6 +512,18 @@ def correspondence(ctx: Ctx) -> CorrResult:
             if name == 'sftp_get':
                 m = m + '|' + flag
             mod = m
+        if name == 'scp_sink_new':
+            items = set()
+            for pth in ([] if mod == '-' else mod.split(';')):
+                if pth == '@':
+                    items.add('@')
+                else:
+                    comps = [unhx(c) for c in pth.split('/') if unhx(c) != b'.']
+                    items.add(os.fsdecode(b'/'.join(comps)) if comps else '@')      # `dest/.` is the destination
+            if case['mode'] == 1:
+                items.add('@')          # the destination was there before
+            mod = ';'.join(sorted(items)) if items else '-'
+            impl = ';'.join(sorted(impl.split(';'))) if impl != '-' else '-'
         res.cases += 1
         if mod != impl:
             res.disagreements.append(Disagreement(case={'op': name, **case, 'line': line}, model=mod, impl=impl,
@@ -778,10 +821,24 @@ async def _oracle_downloads(ctx: Ctx, rng: Any, scratch: str, hist: Hist, res: O
     for i in range(ctx.n(40, 600)):
         base = os.path.join(scratch, f'scp{i}')
         dest = os.path.join(base, 'outer', 'dest')
-        os.makedirs(dest)
+        # the destination exists as a directory / does not exist yet / is a regular file: in the last two modes the
+        # first C or D record names the destination itself, so the sink's depth bookkeeping is off by one level
+        dest_mode = ['dir', 'absent', 'dir', 'file', 'absent'][i % 5]
+        os.makedirs(dest if dest_mode == 'dir' else os.path.dirname(dest))
+        if dest_mode == 'file':
+            with open(dest, 'wb') as f:
+                f.write(b'old')
+        with open(os.path.join(base, 'outer', 'canary.txt'), 'wb') as f:
+            f.write(b'canary')
         os.makedirs(os.path.join(base, 'outside'))
         recs: List[Tuple[str, bytes]] = []
-        if i == 0:
+        nested = [[('D', b'tree'), ('D', b'..'), ('C', b'canary.txt'), ('C', b'escaped.txt')],
+                  [('D', b'a'), ('D', b'b'), ('E', b''), ('D', b'..'), ('D', b'..'), ('C', b'up')],
+                  [('D', b'a'), ('E', b''), ('D', b'..'), ('C', b'canary.txt')],
+                  [('C', b'f'), ('D', b'..'), ('C', b'up')]]
+        if i in (6, 9, 11, 14, 16, 19, 21, 24):
+            recs = nested[(i // 5) % len(nested)]
+        elif i == 0:
             recs = [('E', b''), ('C', b'up')]
         elif i == 1:
             recs = [('D', b'..'), ('C', b'up'), ('E', b''), ('E', b''), ('C', b'up2')]
@@ -801,7 +858,8 @@ async def _oracle_downloads(ctx: Ctx, rng: Any, scratch: str, hist: Hist, res: O
             changed = sorted(k for k in set(after) | set(before) if after.get(k) != before.get(k))
             fails.append(Failure(signature='scp-sink-escape',
                                  what=f'SCP download created {changed[:3]} outside the destination',
-                                 replay={'kind': 'scp-records', 'records': [[k, nm.hex()] for k, nm in recs]}))
+                                 replay={'kind': 'scp-records', 'records': [[k, nm.hex()] for k, nm in recs],
+                                         'dest_mode': dest_mode}))
     res.nontrivial += res.evaluations
     return fails
 
@@ -823,7 +881,13 @@ def replay(ctx: Ctx, rep: Dict[str, Any]) -> List[Failure]:
         return [Failure(history_signature(h), str(leaks), r)] if leaks else []
     if r.get('kind') in ('sftp-get-tree', 'scp-records'):
         dest = os.path.join(base, 'outer', 'dest')
-        os.makedirs(dest)
+        mode = r.get('dest_mode', 'dir')
+        os.makedirs(dest if mode == 'dir' else os.path.dirname(dest))
+        if mode == 'file':
+            with open(dest, 'wb') as f:
+                f.write(b'old')
+        with open(os.path.join(base, 'outer', 'canary.txt'), 'wb') as f:
+            f.write(b'canary')
         before = snapshot(base, skip=dest)
         if r['kind'] == 'sftp-get-tree':
             pair.run(run_get(tree_from_tokens(r['tree']), dest))
